@@ -259,7 +259,7 @@ func init() {
 					}
 					// with iteration orders and picks deviating (d<=1): the SET of possible observations of B
 					// is the same with and without A
-					if diff == "" && (c.Thorough() || idx%16 == 0) {
+					if diff == "" && (c.Thorough() || idx%32 == 0) {
 						s0, n0 := c19Outcomes(b.sc, 0, 1)
 						s1, n1 := c19Outcomes(with, bIdx, 1)
 						r.Transitions += int64((n0 + n1) * len(b.sc.Cycles))
